@@ -120,6 +120,9 @@ func (h *fsmHarness) commit(f []string) string {
 	case kind == "P":
 		// the test-only PANIC command (ROBUSTIRC_TESTING_ENABLE_PANIC_COMMAND=1): applying it panics
 		msg.Type, msg.Session, msg.Data, msg.ClientMessageId = robust.IRCFromClient, robust.Id{Id: h.lastSess}, "PANIC", idx
+	case kind == "g":
+		// a keepalive: changes LastActivity, produces a PONG for the sender
+		msg.Type, msg.Session, msg.Data, msg.ClientMessageId = robust.IRCFromClient, robust.Id{Id: h.lastSess}, fmt.Sprintf("PING k%d", idx), idx
 	case kind == "d":
 		// an entry already rewritten as message of death: only the session's duplicate-detection marker moves
 		msg.Type, msg.Session, msg.Data, msg.ClientMessageId = robust.MessageOfDeath, robust.Id{Id: h.lastSess}, "PANIC", idx
